@@ -339,6 +339,67 @@ theorem call_ok_value (p p' : Plugin) (op : String) (m : Method) (a : Args) (hm 
         rw [hfr k' lv' hne]
         simp [sampleOf, lookup_append_single_ne _ _ _ _ hne]
 
+/-! ### which object a report lands in -/
+
+theorem useFamily_ok_family (p p' : Plugin) (m : Method) (key : String) (f : Family) (a : Args)
+    (h : useFamily p m key f a = (p', .ok)) :
+    ∃ cs, p'.cache.lookup key = some { f with children := cs } := by
+  unfold useFamily at h
+  split at h
+  · next o ho =>
+    simp only [Prod.mk.injEq] at h
+    exact absurd h.2 (targetOf_error f a o ho)
+  · simp only at h
+    split at h
+    · simp at h
+    · simp only [Prod.mk.injEq, and_true] at h
+      subst h
+      exact ⟨_, lookup_assocSet_self _ _ _⟩
+
+theorem table_ctor (op : String) (m : Method) (h : (op, m) ∈ methods) :
+    m.ctorName = .name ∧ m.ctorNamespace = .namespace ∧ m.ctorUnit = .unit ∧ m.ctorLabelnames = .labelKeys ∧
+    m.ctorDoc = .help ∧ m.docHasDefault = true ∧ m.docDefault = "" := by
+  simp only [methods, List.mem_cons, List.not_mem_nil, or_false, Prod.mk.injEq] at h
+  rcases h with ⟨-, rfl⟩ | ⟨-, rfl⟩ | ⟨-, rfl⟩ | ⟨-, rfl⟩ <;> exact ⟨rfl, rfl, rfl, rfl, rfl, rfl, rfl⟩
+
+theorem construct_fields (p : Plugin) (m : Method) (a : Args) (f : Family) (h : construct p m a = some f) :
+    buildFullName m.cls (strArg a m.ctorName) (strArg a m.ctorNamespace) (strArg a m.ctorUnit) = some f.fullName ∧
+    keysArg a m.ctorLabelnames = some f.labelNames ∧
+    f.doc = (if m.docHasDefault then (truthy (strArg a m.ctorDoc)).getD m.docDefault else (strArg a m.ctorDoc).getD "None") := by
+  unfold construct at h
+  split at h
+  · next full keys hb hk =>
+    split at h
+    · simp at h
+    · split at h
+      · simp at h
+      · simp only [Option.some.injEq] at h
+        subst h
+        exact ⟨hb, hk, rfl⟩
+  · simp at h
+
+/-- the first report under a key: the object it lands in carries the report's own namespace, unit, label names, help -/
+theorem call_first_use (p p' : Plugin) (op : String) (m : Method) (a : Args) (hm : (op, m) ∈ methods)
+    (hfirst : p.cache.lookup (cacheKey a.name m.typeName) = none) (h : call p m a = (p', .ok)) :
+    ∃ f, p'.cache.lookup (cacheKey a.name m.typeName) = some f ∧
+      buildFullName m.cls (some a.name) a.ns a.unit = some f.fullName ∧
+      f.labelNames = a.labels.map (·.1) ∧ f.doc = (truthy a.help).getD "" ∧ f.cls = m.cls := by
+  obtain ⟨h1, h2, h3, h4, h5, h6, h7⟩ := table_ctor op m hm
+  unfold call at h
+  simp only [hfirst] at h
+  split at h
+  · simp at h
+  · next f hc =>
+    obtain ⟨cs, hl⟩ := useFamily_ok_family _ p' m _ f a h
+    obtain ⟨hb, hk, hd⟩ := construct_fields p m a f hc
+    rw [h1, h2, h3] at hb
+    rw [h4] at hk
+    rw [h5, h6, h7] at hd
+    refine ⟨_, hl, ?_, ?_, ?_, construct_cls p m a f hc⟩
+    · simpa [strArg] using hb
+    · simp only [keysArg, Option.some.injEq] at hk; exact hk.symm
+    · simpa [strArg] using hd
+
 /-! ### one registration per key -/
 
 theorem useFamily_keys (p : Plugin) (m : Method) (key : String) (f : Family) (a : Args)
